@@ -635,4 +635,41 @@ def decryptInit (moov : List MoovChild) : Option (List MoovChild × DecInfo) :=
   | none => none
   | some (ch, di) => some (ch.filter (fun c => !c.isPssh), di)
 
+/-! ## DecryptInit: the trex box of every track
+
+`DecryptInit` ends with a loop over the trex boxes of mvex (in file order): each goes to the first track info with the
+same track ID.  `DecryptFragment` reads the samples of a traf through that box (`GetFullSamples` selects the traf by the
+trex box's track ID and takes default duration / size / flags from it), so a track must get the box of its own ID whatever
+the order of the trex boxes.  A trex box is (track ID, tag); the driver uses the position in mvex as tag. -/
+
+/-- one round of the loop: the trex box `tag` of track `tid` goes to the first track info with that track ID (`break`) -/
+def assignTrex (tid tag : Nat) : List (Nat × Option Nat) → List (Nat × Option Nat)
+  | [] => []
+  | (id, x) :: rest => if id = tid then (id, some tag) :: rest else (id, x) :: assignTrex tid tag rest
+
+/-- the loop over `moov.Mvex.Trexs`: `ids` = track IDs of the track infos in `DecryptInfo` order -/
+def pairTrexs (ids : List Nat) (trexs : List (Nat × Nat)) : List (Nat × Option Nat) :=
+  trexs.foldl (fun acc t => assignTrex t.1 t.2 acc) (ids.map fun id => (id, none))
+
+/-- lookup by track ID, the last box with that ID winning: what `pairTrexs` computes for distinct track IDs
+    (`Lemmas/ProtectTrex.lean`) -/
+def trexOf : List (Nat × Nat) → Nat → Option Nat
+  | [], _ => none
+  | (tid, tag) :: rest, id =>
+    match trexOf rest id with
+    | some t => some t
+    | none => if id = tid then some tag else none
+
+/-- trex boxes numbered by their position in mvex (from `n`) -/
+def numbered : Nat → List Nat → List (Nat × Nat)
+  | _, [] => []
+  | n, id :: rest => (id, n) :: numbered (n + 1) rest
+
+/-- `DecryptInit`, the trex side: per track info (in `DecryptInfo` order) the track ID and the position (from 1) of the
+    trex box it is given; `trexIDs` = track IDs of the trex boxes in mvex order -/
+def decryptInitTrex (moov : List MoovChild) (trexIDs : List Nat) : Option (List (Nat × Option Nat)) :=
+  match decryptInit moov with
+  | none => none
+  | some (_, di) => some (pairTrexs (di.map (·.1)) (numbered 1 trexIDs))
+
 end Mp4ff.Protect
